@@ -81,13 +81,19 @@ def check(run, case):
             pass
         b.reset()
     ref = b''
-    for k, v in vals:
+    for n_added, (k, v) in enumerate(vals):
         try:
             getattr(b, ADD[k])(v)
         except Exception as e:  # noqa
             run.violation('add-raised:%s' % k, case, '%s(%r) raised %r' % (ADD[k], v, e))
             return False
         ref += P.layout(k, v, bo, wo)
+        if case.get('peek') and n_added % 2 == 0:
+            # looking at the payload so far (bytes, registers, coils) is a read: it must not change what is built afterwards
+            try:
+                b.to_string(), b.build(), b.to_registers(), b.to_coils()
+            except Exception:  # noqa
+                pass
     ok = True
     run.count('comparisons', 3)
     s = b.to_string()
@@ -160,6 +166,8 @@ def run(run):
                 case = {'items': items, 'byteorder': bo, 'wordorder': wo}
                 if i % 5 == 3 and len(items) > 1:
                     case['reuse'] = True
+                if i % 5 == 1 and len(items) > 1:
+                    case['peek'] = True
                 res = check(run, case)
                 for k, _ in items:
                     run.count('kind:%s:%s/%s' % (k, bo, wo))
